@@ -93,7 +93,25 @@ def side_case(seed):
         y = TT(Y.reshape(dims + [1] * order))
         # the flags may only be switched off for parts that are orthonormal already (that is their purpose): TT(full) is
         # left-orthonormal by construction; without ortho_r the last core has to be right-orthonormal beforehand
-        if not or_:
+        intfirst = rng.random() < 0.15
+        if intfirst:
+            # mixed dtypes: an integer-typed first core (selection / count data) in front of float cores
+            ol = True
+            desc['ortho_l'] = True
+            desc['int_first_core'] = True
+            if thr > 1e-6:          # a genuine cut on a train that is not left-orthonormal is the domain of finding F30 (C05)
+                thr = 1e-10
+                desc['thr'] = thr
+            x = TT([np.rint(3 * x.cores[0]).astype(np.int64)] + [c.copy() for c in x.cores[1:]])
+            y = TT([np.rint(3 * y.cores[0]).astype(np.int64)] + [c.copy() for c in y.cores[1:]])
+            X = np.real(dense(x.cores)).reshape(n, m)
+            Y = np.real(dense(y.cores)).reshape(n, m)
+            if not np.any(X):
+                desc['skipped'] = 'zero data'
+                return None, desc
+        pre = (not or_) or rng.random() < 0.4
+        desc['time_core_orthonormal'] = pre
+        if pre:             # the weights sit in the last spatial core, the time core is right-orthonormal already
             x = x.ortho_right(start_index=order - 1, end_index=order - 1)
         # matrix DMD with the same relative cut
         U, s, Vh = np.linalg.svd(X, full_matrices=False)
